@@ -293,7 +293,7 @@ func (s *Script) IsP2PK() bool {
 		return false
 	}
 
-	if len(parts) == 2 && len(parts[0]) > 0 && parts[1][0] == OpCHECKSIG {
+	if len(parts) == 2 && len(parts[0]) > 0 && len(parts[1]) > 0 && parts[1][0] == OpCHECKSIG {
 		pubkey := parts[0]
 		version := pubkey[0]
 
@@ -350,6 +350,15 @@ func isP2PKHInscriptionHelper(parts [][]byte) bool {
 	if len(parts) < 13 {
 		return false
 	}
+	// a part is empty when it is an empty OP_PUSHDATA, so check before indexing.
+	for _, i := range []int{0, 1, 3, 4, 5, 6, 8, 10, 12} {
+		if len(parts[i]) == 0 {
+			return false
+		}
+	}
+	if len(parts[7]) < 3 {
+		return false
+	}
 	valid := parts[0][0] == OpDUP &&
 		parts[1][0] == OpHASH160 &&
 		parts[3][0] == OpEQUALVERIFY &&
@@ -362,7 +371,7 @@ func isP2PKHInscriptionHelper(parts [][]byte) bool {
 		parts[12][0] == OpENDIF
 
 	if len(parts) > 13 {
-		return parts[13][0] == OpRETURN && valid
+		return len(parts[13]) > 0 && parts[13][0] == OpRETURN && valid
 	}
 	return valid
 }
@@ -377,7 +386,8 @@ func (s *Script) ParseInscription() (*InscriptionArgs, error) {
 		return nil, err
 	}
 
-	if !isP2PKHInscriptionHelper(p) {
+	// the locking script prefix returned is the 25 bytes of the P2PKH script.
+	if len(*s) < 25 || !isP2PKHInscriptionHelper(p) {
 		return nil, ErrP2PKHInscriptionNotFound
 	}
 
@@ -413,7 +423,7 @@ func (s *Script) IsMultiSigOut() bool {
 		return false
 	}
 
-	if !isSmallIntOp(parts[0][0]) {
+	if len(parts[0]) < 1 || !isSmallIntOp(parts[0][0]) {
 		return false
 	}
 
